@@ -745,6 +745,11 @@ func genericFiles() map[string]bool {
 				genericSet[e.Name()] = true
 			}
 		}
+		// the part of the dispatch that lives in package slip (anchors of
+		// the property): running a combined method, call-next-method
+		for _, f := range []string{"method.go", "whoploc.go", "combination.go"} {
+			genericSet[f] = true
+		}
 	})
 	return genericSet
 }
